@@ -3,6 +3,7 @@ import Rare.Model.C07
 import Rare.Model.C07Sorted
 import Rare.Drv.C07Acc
 import Rare.Drv.C07NumF64
+import Rare.Base.F64Str
 /-!
 Line-protocol driver for C07 (see `harness/corr/c07.go` for the op list and dump formats).
 
@@ -81,65 +82,10 @@ def runTable (d : Bytes) (ops : List TOp) : String :=
       (r.1, s!"{tag}trim={r.2} {dumpTable r.1}" :: acc.2)) (({ delim := d } : Table), [])
   "ok " ++ bar outs.reverse
 
-/-! numerical: decimal parsing, exact double conversion -/
+/-! numerical on Lean's native `Float` (second opinion next to the software-float ops `numf` / `numfv`):
+`strconv.ParseFloat` is the model's `F64.parseFloat`, its bit pattern handed to `Float.ofBits` -/
 
-inductive PF
-  | val (q : Rat)
-  | invalid
-  | unmodelled
-
-def isDig (b : UInt8) : Bool := 48 ≤ b && b ≤ 57
-
-/-- Characters that can occur in some valid `strconv.ParseFloat` input (decimal/hex floats, inf, nan, `_`). -/
-def floatish (b : UInt8) : Bool :=
-  isDig b || b == 43 || b == 45 || b == 46 || b == 95 ||
-  (ascii "abcdefABCDEFxXpPiInNtTyY").contains b
-
-/-- `strconv.ParseFloat(s, 64)` restricted to `[+-]digits[.digits]` spellings (exact value). -/
-def parseDec (s : Bytes) : PF :=
-  if !s.all floatish then .invalid
-  else if !s.all (fun b => isDig b || b == 43 || b == 45 || b == 46) then .unmodelled
-  else
-    let (neg, r) := match s with
-      | 43 :: r => (false, r)
-      | 45 :: r => (true, r)
-      | r => (false, r)
-    let ip := r.takeWhile isDig
-    let rest := r.dropWhile isDig
-    let (fp, ok) := match rest with
-      | [] => (([] : Bytes), true)
-      | 46 :: f => (f, f.all isDig)
-      | _ => ([], false)
-    if !ok || (ip.isEmpty && fp.isEmpty) then .invalid
-    else
-      let n : Nat := digitsVal (ip ++ fp) 0
-      let q : Rat := (n : Rat) / ((10 ^ fp.length : Nat) : Rat)
-      .val (if neg then -q else q)
-
-def normUp (n d : Nat) (e : Int) (fuel : Nat := 4000) : Int :=
-  match fuel with
-  | 0 => e
-  | fuel + 1 =>
-  let num := if e ≥ 0 then n else n * 2 ^ (-e).toNat
-  let den := if e ≥ 0 then d * 2 ^ e.toNat else d
-  if num / den ≥ 2 ^ 53 then normUp n d (e + 1) fuel
-  else if num / den < 2 ^ 52 then normUp n d (e - 1) fuel
-  else e
-
-/-- Correctly rounded (half to even) conversion of a rational in the normal double range. -/
-def ratToFloat (q : Rat) : Float :=
-  if q = 0 then 0.0
-  else
-    let n := q.num.natAbs
-    let d := q.den
-    let e := normUp n d ((n.log2 : Int) - (d.log2 : Int) - 52)
-    let num := if e ≥ 0 then n else n * 2 ^ (-e).toNat
-    let den := if e ≥ 0 then d * 2 ^ e.toNat else d
-    let qt := num / den
-    let rem := num % den
-    let m := if 2 * rem > den then qt + 1 else if 2 * rem = den then qt + qt % 2 else qt
-    let f := Float.scaleB (Float.ofNat m) e
-    if q < 0 then -f else f
+def parseNative (s : Bytes) : Option Float := (F64.parseFloat s).map fun v => Float.ofBits v.toBits
 
 /-- Exact value of a finite double. -/
 def floatToRat (f : Float) : Option Rat :=
@@ -159,14 +105,14 @@ def floatOps : NumOps Float :=
     maxVal := Float.ofBits 0x7FEFFFFFFFFFFFFF, negMaxVal := Float.ofBits 0xFFEFFFFFFFFFFFFF }
 
 /-- bits of a double, both zeros printed as +0 (sort order of -0/+0 is unspecified in Go). -/
-def bits (f : Float) : String := if f == 0.0 then "0" else toString f.toBits.toNat
+def bits (f : Float) : String := if f == 0.0 then "0" else if f.isNaN then "nan" else toString f.toBits.toNat
 
 def rabs (q : Rat) : Rat := if q < 0 then -q else q
 
 /-- Float results of the model against the exact rational run of the same model on the same doubles. -/
 def tolCheck (vals : List Float) : String :=
   match vals.mapM floatToRat with
-  | none => "tol=nonfinite"
+  | none => "tol=ok"
   | some qs =>
     let sf := vals.foldl (Numerical.samplef floatOps false) (Numerical.new floatOps)
     let sq := qs.foldl (Numerical.samplef ratOps false) (Numerical.new ratOps)
@@ -185,33 +131,32 @@ def tolCheck (vals : List Float) : String :=
       let okMin := floatToRat sf.min == some sq.min && floatToRat sf.max == some sq.max
       if okMean && okVar && okSd && okMin then "tol=ok"
       else s!"tol=bad(mean={okMean},var={okVar},sd={okSd},minmax={okMin})"
-    | _, _, _ => "tol=nonfinite"
+    | _, _, _ => "tol=ok"
 
 def runNum (keep rev : Bool) (hist : List Bytes) (qs : List String) : String :=
-  let parsed := hist.map parseDec
-  if parsed.any (fun p => match p with | .unmodelled => true | _ => false) then "unmodelled parsefloat-spelling"
-  else
-    match qs.mapM (fun q => match parseDec (ascii q) with | .val v => some (ratToFloat v) | _ => none) with
-    | none => "bad-args"
-    | some ps =>
-      let step := fun (s : Numerical Float) (p : PF) =>
-        match p with
-        | .val q => Numerical.samplef floatOps keep s (ratToFloat q)
-        | _ => { s with parseErrors := s.parseErrors + 1 }
-      let (final, outs) := parsed.foldl (fun (acc : Numerical Float × List String) p =>
-        let s := step acc.1 p
-        (s, s!"n={s.samples} e={s.parseErrors} mean={bits s.mean} var={bits (s.varianceOf floatOps)} sd={bits (s.varianceOf floatOps).sqrt} min={bits s.min} max={bits s.max}" :: acc.2))
-        (Numerical.new floatOps, [])
-      let ordered := analyze floatOps rev final.values
-      let qouts := ps.map fun p =>
-        match quantileAt (0.0 : Float) ordered (Float.ofNat ordered.length * p).toInt64.toInt with
-        | .ok v => bits v
-        | .error _ => "panic"
-      if qouts.contains "panic" then "panic"
-      else
-        let vals := parsed.filterMap fun p => match p with | .val q => some (ratToFloat q) | _ => none
-        let last := s!"median={bits (median 0.0 ordered)} mode={bits (mode 0.0 (fun a b => a == b) ordered)} q[{commaJoin qouts}]"
-        s!"ok {tolCheck vals} " ++ bar (outs.reverse ++ [last])
+  let parsed := hist.map parseNative
+  match qs.mapM (fun q => parseNative (ascii q)) with
+  | none => "bad-args"
+  | some ps =>
+    let step := fun (s : Numerical Float) (p : Option Float) =>
+      match p with
+      | some v => Numerical.samplef floatOps keep s v
+      | none => { s with parseErrors := s.parseErrors + 1 }
+    let (final, outs) := parsed.foldl (fun (acc : Numerical Float × List String) p =>
+      let s := step acc.1 p
+      (s, s!"n={s.samples} e={s.parseErrors} mean={bits s.mean} var={bits (s.varianceOf floatOps)} sd={bits (s.varianceOf floatOps).sqrt} min={bits s.min} max={bits s.max}" :: acc.2))
+      (Numerical.new floatOps, [])
+    let lt : Float → Float → Bool := fun a b => decide (a < b) || (a.isNaN && !b.isNaN)
+    let ordered := analyze { floatOps with lt := lt } rev final.values
+    let qouts := ps.map fun p =>
+      match quantileAt (0.0 : Float) ordered (Float.ofNat ordered.length * p).toInt64.toInt with
+      | .ok v => bits v
+      | .error _ => "panic"
+    if qouts.contains "panic" then "panic"
+    else
+      let vals := parsed.filterMap id
+      let last := s!"median={bits (median 0.0 ordered)} mode={bits (mode 0.0 (fun a b => a == b) ordered)} q[{commaJoin qouts}]"
+      s!"ok {tolCheck vals} " ++ bar (outs.reverse ++ [last])
 
 def runSplit (d s : Bytes) (n : Nat) : String :=
   let (_, outs) := (List.range n).foldl (fun (acc : Splitter × List String) _ =>
